@@ -281,6 +281,11 @@ def register(ck, op, key, what, call, earlier):
     """Register a failure found in the sweep with a witness that fails in a fresh process: the call
     alone if possible, otherwise the call preceded by earlier calls of this process (hidden state)."""
     single = {"op_key": op.key, "call": call}
+    if _confirm_budget["single"] <= 0:
+        # enough witnesses of this task were already confirmed in fresh processes: do not guess at a
+        # "process state" explanation for a failure that was simply not re-run alone
+        brk(ck, "oracle", f"failure seen, not re-run in a fresh process (confirmation budget of the task spent): {key}", what[:300])
+        return
     if confirm(single, key):
         small = shrink(op, call, key)
         if small != call and confirm({"op_key": op.key, "call": small}, key):
